@@ -466,12 +466,6 @@ class C03(Check):
             return "depth-limit-200"
         variadic = [m for m in ms if m["params"] and m["params"][-1].endswith("...")]
         hashy = [m for m in ms if m["params"] is not None and "#" in (m["body"] or "")]
-        # (2) white space before a comma inside the variable argument is lost by #__VA_ARGS__
-        if impl_ans[0] == "Ok" and spec_ans[0] == "Ok" and variadic and hashy and len(impl_ans[1]) == len(spec_ans[1]):
-            diff = [(a, b) for a, b in zip(impl_ans[1], spec_ans[1]) if a != b]
-            if diff and all(a.startswith('"') and b.startswith('"') and a.replace(" ,", ",") == b.replace(" ,", ",")
-                            for a, b in diff):
-                return "variadic-comma-white-space"
         # (3) a token that comes out of # / ## processing (argument token, string) and is spelled like
         #     a parameter of the macro is substituted a second time
         for m in hashy:
